@@ -396,3 +396,7 @@ class ResponseHandler(BaseProtocol, DataQueue[tuple[RawResponseMessage, StreamRe
             # Bytes nobody asked for (possibly the rest of the read that
             # completed the last response): the pooled connection is unusable.
             self.close()
+            # A request whose head is still buffered may be reading already:
+            # nothing that was queued is an answer to it.
+            self._buffer.clear()
+            self.set_exception(ServerDisconnectedError())
